@@ -40,10 +40,13 @@ import (
 )
 
 type cutDialer struct {
-	inner  cluster.Dialer
-	remain atomic.Int64 // bytes still deliverable; <0: unlimited
-	seen   atomic.Int64 // bytes delivered
-	cut    atomic.Bool  // the limit was hit
+	inner     cluster.Dialer
+	limit     int64        // bytes deliverable before the cut; <0: unlimited
+	firstOnly bool         // only the first connection is cut, later ones are untouched
+	nConns    atomic.Int64 // connections dialled
+	seen      atomic.Int64 // bytes delivered on the first connection
+	cut       atomic.Bool  // the limit was hit
+	prefix    []byte       // junk delivered (first connection only) in place of the stream after the response header
 }
 
 func (d *cutDialer) Dial(addr string, timeout time.Duration) (net.Conn, error) {
@@ -51,28 +54,36 @@ func (d *cutDialer) Dial(addr string, timeout time.Duration) (net.Conn, error) {
 	if err != nil {
 		return nil, err
 	}
-	return &cutConn{Conn: c, d: d}, nil
+	k := d.nConns.Add(1)
+	cc := &cutConn{Conn: c, d: d, remain: d.limit, first: k == 1}
+	if d.firstOnly && k > 1 {
+		cc.remain = -1
+	}
+	return cc, nil
 }
 
 type cutConn struct {
 	net.Conn
-	d *cutDialer
+	d      *cutDialer
+	remain int64
+	first  bool
 }
 
 func (c *cutConn) Read(p []byte) (int, error) {
-	rem := c.d.remain.Load()
-	if rem == 0 {
+	if c.remain == 0 {
 		c.d.cut.Store(true)
 		c.Conn.Close()
 		return 0, io.EOF
 	}
-	if rem > 0 && int64(len(p)) > rem {
-		p = p[:rem]
+	if c.remain > 0 && int64(len(p)) > c.remain {
+		p = p[:c.remain]
 	}
 	n, err := c.Conn.Read(p)
-	c.d.seen.Add(int64(n))
-	if rem > 0 {
-		c.d.remain.Add(-int64(n))
+	if c.first {
+		c.d.seen.Add(int64(n))
+	}
+	if c.remain > 0 {
+		c.remain -= int64(n)
 	}
 	return n, err
 }
@@ -149,7 +160,7 @@ func restore(dir string, k reqKind, data []byte) (string, string) {
 func TestVerif_C21_Remote(t *testing.T) {
 	vnode.QuietLogs()
 	rec := vstat.New(t, "C21", "remote",
-		"2-node cluster; database of generated size (rows {3,200,3000} x value length {5,200}); per case 6..12 (thorough ..20) backups requested on the follower through proxy.Backup with format {binary,delete,sql} x compress x vacuum and the leader->follower byte stream cut after n bytes, n over [0, uncut length] weighted to both ends, plus uncut runs; non-trivial = a cut fell strictly inside the stream; distinct by (format,compress,vacuum,cut position class,rows)")
+		"2-node cluster; database of generated size (rows {3,200,3000} x value length {5,200}); per case 6..12 (thorough ..20) backups requested on the follower through proxy.Backup with format {binary,delete,sql} x compress x vacuum and the leader->follower byte stream cut after n bytes, n over [0, uncut length] weighted to both ends (cut on every connection, or on the first connection only with n in 0..30 so that a client-side retry gets a clean stream), plus uncut runs; non-trivial = a cut fell strictly inside the stream; distinct by (format,compress,vacuum,cut position class,rows)")
 	rapid.Check(t, func(rt *rapid.T) {
 		rows := rapid.SampledFrom([]int{3, 200, 3000}).Draw(rt, "rows")
 		vlen := rapid.SampledFrom([]int{5, 200}).Draw(rt, "vlen")
@@ -206,9 +217,8 @@ func TestVerif_C21_Remote(t *testing.T) {
 			t.Fatalf("harness: reference backup unusable: %s", why)
 		}
 
-		run := func(k reqKind, limit int64) (data []byte, seen int64, cut bool, err error) {
-			d := &cutDialer{inner: c.Net.Dialer(follower.Name, cluster.MuxClusterHeader)}
-			d.remain.Store(limit)
+		run := func(k reqKind, limit int64, firstOnly bool) (data []byte, seen int64, cut bool, conns int64, err error) {
+			d := &cutDialer{inner: c.Net.Dialer(follower.Name, cluster.MuxClusterHeader), limit: limit, firstOnly: firstOnly}
 			client := cluster.NewClient(d, 3*time.Second)
 			pxy := proxy.New(follower.Store, client)
 			var buf bytes.Buffer
@@ -220,9 +230,9 @@ func TestVerif_C21_Remote(t *testing.T) {
 			select {
 			case err = <-done:
 			case <-time.After(90 * time.Second):
-				return nil, 0, false, fmt.Errorf("harness-timeout")
+				return nil, 0, false, 0, fmt.Errorf("harness-timeout")
 			}
-			return buf.Bytes(), d.seen.Load(), d.cut.Load(), err
+			return buf.Bytes(), d.seen.Load(), d.cut.Load(), d.nConns.Load(), err
 		}
 
 		anyInside := false
@@ -233,7 +243,7 @@ func TestVerif_C21_Remote(t *testing.T) {
 				k.Vacuum = rapid.Bool().Draw(rt, "vacuum")
 			}
 			// uncut run: measures the stream length
-			data, total, _, err := run(k, -1)
+			data, total, _, _, err := run(k, -1, false)
 			if err != nil && err.Error() == "harness-timeout" {
 				rt.Skip("uncut backup did not return in 90s")
 			}
@@ -259,9 +269,15 @@ func TestVerif_C21_Remote(t *testing.T) {
 			}
 			// cut run
 			var n int64
-			switch rapid.IntRange(0, 3).Draw(rt, "cutClass") {
+			firstOnly := false
+			switch rapid.IntRange(0, 5).Draw(rt, "cutClass") {
 			case 0:
 				n = int64(rapid.IntRange(0, 40).Draw(rt, "cutHead"))
+			case 4, 5:
+				// only the first connection is cut (inside the response header or the
+				// first bytes of the stream); whatever the client dials next is untouched
+				n = int64(rapid.IntRange(0, 30).Draw(rt, "cutFirstConn"))
+				firstOnly = true
 			case 1:
 				n = total - int64(rapid.IntRange(1, 40).Draw(rt, "cutTail"))
 			default:
@@ -273,7 +289,7 @@ func TestVerif_C21_Remote(t *testing.T) {
 			if n >= total {
 				n = total - 1
 			}
-			data, _, wasCut, err := run(k, n)
+			data, _, wasCut, conns, err := run(k, n, firstOnly)
 			if err != nil && err.Error() == "harness-timeout" {
 				rt.Skip("cut backup did not return in 90s")
 			}
@@ -286,6 +302,12 @@ func TestVerif_C21_Remote(t *testing.T) {
 			rec.Case(wasCut, fmt.Sprintf("%s/%s/%d", k, class, rows))
 			if wasCut {
 				anyInside = true
+			}
+			if firstOnly {
+				class = "first-conn-only"
+				if conns > 1 {
+					rec.Label("client-dialled-again-after-cut")
+				}
 			}
 			rec.Label("cut:" + class)
 			rec.Label(fmt.Sprintf("cut:%s", k.Format))
@@ -302,13 +324,16 @@ func TestVerif_C21_Remote(t *testing.T) {
 				why = "restores to a different database than the leader's"
 			}
 			sig := "C21/truncated-remote-backup-reported-ok"
+			if firstOnly && conns > 1 {
+				sig = "C21/retried-remote-backup-not-a-single-complete-backup"
+			}
 			if k.Compress {
 				sig += "/compressed"
 			}
 			if rec.KnownHit(sig, "a remote backup whose stream was cut is returned as a successful backup") {
 				continue
 			}
-			rt.Fatalf("%s", rec.Violation(sig, "remote backup (%s) with the stream cut after %d of %d bytes returned success with %d bytes that are unusable or different: %s", ctxs, n, total, len(data), why))
+			rt.Fatalf("%s", rec.Violation(sig, "remote backup (%s, first connection only=%v, connections dialled=%d) with the stream cut after %d of %d bytes returned success with %d bytes that are unusable or different: %s", ctxs, firstOnly, conns, n, total, len(data), why))
 		}
 		_ = anyInside
 	})
